@@ -14,7 +14,8 @@ use crate::prop_oneof;
 use serde::{Deserialize, Serialize};
 use soroban_sdk::token::TokenClient;
 use soroban_sdk::xdr::ScVal;
-use soroban_sdk::{Address, Bytes, BytesN};
+use soroban_sdk::testutils::Address as _;
+use soroban_sdk::{Address, Bytes, BytesN, IntoVal};
 
 pub struct C05;
 
@@ -81,6 +82,10 @@ pub enum Op {
     /// the issuer of a canonical Stellar asset hands its admin role to the token service (before or after the asset is
     /// registered): registered assets stay lock/unlock tokens, custody accounting goes on unchanged
     IssuerHandsAdminToService { slot: u8 },
+    /// somebody (signing nothing, or signing only the outermost call as a stranger) names the token service itself as the
+    /// payer of a remote canonical deployment (how 0) or as the sender of a transfer (how 1), with the gas stated in a
+    /// canonical asset the service holds in custody: custody is what users locked, it must not be spent
+    ServiceNamedAsPayer { slot: u8, chain: u8, amount: Amt, how: u8, stranger_signs: bool },
 }
 
 #[derive(Clone, Debug, Serialize, Deserialize)]
@@ -126,6 +131,7 @@ fn op() -> impl Strategy<Value = Op> {
         1 => Just(Op::UpgradeAndMigrate),
         1 => (0u8..2).prop_map(|slot| Op::RegisterDeployedAsCanonical { slot }),
         1 => (0u8..2).prop_map(|slot| Op::IssuerHandsAdminToService { slot }),
+        1 => (0u8..2, 0u8..3, prop_oneof![Just(Amt::One), Just(Amt::Custody), (2u8..30).prop_map(Amt::Small)], 0u8..2, any::<bool>()).prop_map(|(slot, chain, amount, how, stranger_signs)| Op::ServiceNamedAsPayer { slot, chain, amount, how, stranger_signs }),
     ]
 }
 
@@ -429,6 +435,60 @@ impl Property for C05 {
                         cx.count("must_fail");
                         ensure_p!(!matches!(r, Ok(Ok(()))), "step {}: transfer toward {:?}, which was never set as a trusted chain, succeeded", step, name);
                         ensure_p!(snapshot(env) == snap0, "step {}: refused transfer changed the ledger", step);
+                    }
+                }
+                Op::ServiceNamedAsPayer { slot, chain, amount, how, stranger_signs } => {
+                    let ti = 2 + *slot as usize % 2;
+                    let c = *chain as usize % 3;
+                    if let Some(t) = &toks[ti] {
+                        let custody = bal[ti][its_i];
+                        let a: i128 = match amount {
+                            Amt::Custody => custody.max(1),
+                            Amt::Small(k) => *k as i128,
+                            _ => 1,
+                        };
+                        let gas_token = Token { address: t.addr.clone(), amount: a };
+                        let stranger = Address::generate(env);
+                        let (f, args): (&str, soroban_sdk::Vec<soroban_sdk::Val>) = if how % 2 == 0 {
+                            ("deploy_remote_canonical_token", (t.addr.clone(), sstr(env, CHAINS[c]), w.its.id.clone(), gas_token.clone()).into_val(env))
+                        } else {
+                            (
+                                "interchain_transfer",
+                                (w.its.id.clone(), BytesN::from_array(env, &t.id), sstr(env, CHAINS[c]), Bytes::from_slice(env, &[7, 7]), 1i128, Option::<Bytes>::None, gas_token.clone()).into_val(env),
+                            )
+                        };
+                        if *stranger_signs {
+                            let inv = soroban_sdk::testutils::MockAuthInvoke { contract: &w.its.id, fn_name: f, args: args.clone(), sub_invokes: &[] };
+                            env.mock_auths(&[soroban_sdk::testutils::MockAuth { address: &stranger, invoke: &inv }]);
+                        } else {
+                            env.set_auths(&[]);
+                        }
+                        let snap0 = snapshot(env);
+                        let r = env.try_invoke_contract::<soroban_sdk::Val, soroban_sdk::Error>(&w.its.id, &soroban_sdk::Symbol::new(env, f), args);
+                        let ok = matches!(r, Ok(Ok(_)));
+                        let held = TokenClient::new(env, &t.addr).balance(&w.its.id);
+                        env.mock_all_auths_allowing_non_root_auth();
+                        if custody > 0 && trusted[c] {
+                            cx.label("service_named_as_payer_while_it_holds_custody");
+                        }
+                        ensure_p!(
+                            held >= custody,
+                            "step {}: {} naming the token service itself as payer, authorised by {}, took {} of canonical token {} out of the service's custody ({} -> {}) although nothing was released to anybody",
+                            step,
+                            f,
+                            if *stranger_signs { "a stranger" } else { "nobody" },
+                            custody - held,
+                            ti,
+                            custody,
+                            held
+                        );
+                        if ok {
+                            cx.count("either");
+                            // (whatever was accepted moved nothing the model tracks: checked by the sweep below)
+                        } else {
+                            cx.count("must_fail_or_either");
+                            ensure_p!(snapshot(env) == snap0, "step {}: refused call changed the ledger", step);
+                        }
                     }
                 }
                 Op::OutUnknownToken { user } => {
